@@ -397,6 +397,16 @@ pub fn run_gate<K: HKey>(sid: &Value, cfg: &Cfg, ops: &[Value], sel0: usize, scr
             v["version"] = json!(ver);
             fs::write(&sp, serde_json::to_vec(&v).unwrap()).unwrap();
         }
+        // "at any point of any history": an open that must be rejected finds the leftovers of a killed session (a staging
+        // file, a half-written snapshot, a stray file under cas/) - it must not touch them either
+        let litter: Vec<std::path::PathBuf> = if n2 != cfg.n || ver != 4 {
+            vec![root.join("staging").join(".tmpLITTER"), root.join("index.tmp"), root.join("cas").join("not-a-blob")]
+        } else {
+            vec![]
+        };
+        for (i, l) in litter.iter().enumerate() {
+            fs::write(l, vec![0x5au8; [20_000, 10, 3][i]]).unwrap();
+        }
         let d1 = dir_digest(&root);
         let mut c2 = cfg.clone();
         c2.n = n2;
@@ -409,6 +419,9 @@ pub fn run_gate<K: HKey>(sid: &Value, cfg: &Cfg, ops: &[Value], sel0: usize, scr
             st.close();
         }
         let d2 = dir_digest(&root);
+        for l in &litter {
+            let _ = fs::remove_file(l);
+        }
         fs::write(&sp, &orig).unwrap();
         out.emit(&json!({"ev": "gate", "n2": if n2 > i32::MAX as u64 { -1 } else { n2 as i64 }, "ver": ver, "res": res, "same": d1 == d2, "obs": obs}));
         if admitted {
